@@ -78,7 +78,7 @@ func init() {
 			{Name: "l2-stalled-loop", Fn: scnC16Stall, Weight: 1},
 		},
 		Rule: "l1: histories of arrivals separated by fake-clock sleeps with cleanup calls whose cut-offs lie strictly between arrival instants (and far past / far future), timeline of 40 s (one run in five: 170 s, halves up to 160 s apart), keep-alive records of waiting sessions, waiting logins superseded by a later login of the same PID, one run in twelve with 150-350 sessions and logins waiting at once (mixed, or all of one kind arriving within three seconds and older than one sweep's cut-off), arrivals 0/300/700/950 ms after the second, in a third of the runs a last sweep 2 h, 26 h or 200 h later before the probe records, a quarter of the logins-first sessions wait next to a correlated, still open session of the same PID; " +
-			"l2: the real Read loop with its real one-minute ticker, second half arriving after a gap swept over 1..59 s and 121 s..10 min of simulated time (60-120 s generated, not judged), in a third of the runs a record of the correlated session arrives at the instant of every tick and the schedule interleaves the sweep with its delivery at lock granularity; " +
+			"l2: the real Read loop with its real one-minute ticker, second half arriving after a gap swept over 1..59 s and 121 s..10 min of simulated time (60-120 s generated, not judged), in a quarter of the other runs nobody logs in before the second half arrives, in a third of the runs a record of the correlated session arrives at the instant of every tick and the schedule interleaves the sweep with its delivery at lock granularity; " +
 			"l2-stalled-loop: the Read goroutine is withheld for 35-85 simulated seconds (slow-thread fault) so that ticks are served late, halves 5-54 s apart must still correlate; " +
 			"non-trivial = a cleanup call (or ticker firing) happened between the two halves of a session; distinct = distinct (history hash, schedule hash)",
 		Quick: 8000, Thorough: 240000,
@@ -829,10 +829,17 @@ func scnC16L2(rc *RunCtx) {
 		return
 	}
 	var sshdTL, auditTL []TLItem
-	// bound session right at the start
-	auditTL = append(auditTL, TLItem{AtMs: 0, Kind: "event", S: 1, E: 0})
-	sshdTL = append(sshdTL, TLItem{AtMs: 0, Kind: "login", S: 1})
 	t2 := t0 + gapS*1000
+	// bound session right at the start - or, in a quarter of the runs without heartbeat, only after
+	// the second half: then no login of anybody has reached the processor while the first half waits
+	boundAt := 0
+	quietStart := len(heartbeats) == 0 && t.Choose(4, "quiet.start") == 3
+	if quietStart {
+		boundAt = t2 + 1000
+		rc.Sim.Count("c16.no_login_before_the_second_half")
+	}
+	auditTL = append(auditTL, TLItem{AtMs: boundAt, Kind: "event", S: 1, E: 0})
+	sshdTL = append(sshdTL, TLItem{AtMs: boundAt, Kind: "login", S: 1})
 	if loginFirst {
 		sshdTL = append(sshdTL, TLItem{AtMs: t0, Kind: "login", S: 0})
 		auditTL = append(auditTL, TLItem{AtMs: t2, Kind: "event", S: 0, E: 0}, TLItem{AtMs: t2, Kind: "event", S: 0, E: 1})
@@ -846,9 +853,13 @@ func scnC16L2(rc *RunCtx) {
 		auditTL = append(auditTL, TLItem{AtMs: 60000 * (i + 1), Kind: "event", S: 1, E: e})
 	}
 	sort.SliceStable(auditTL, func(i, j int) bool { return auditTL[i].AtMs < auditTL[j].AtMs })
+	sort.SliceStable(sshdTL, func(i, j int) bool { return sshdTL[i].AtMs < sshdTL[j].AtMs })
 	// unrelated logins (other sshd processes whose sessions never show up) keep arriving
 	// while the halves are pending: the cleanup must not depend on the processor being idle
 	decoyEvery := []int{0, 0, 20, 45}[t.Choose(4, "decoy.every")]
+	if quietStart {
+		decoyEvery = 0
+	}
 	if decoyEvery > 0 {
 		for at, i := decoyEvery*1000/2, 0; at < probeAt; at, i = at+decoyEvery*1000, i+1 {
 			ds := &Session{Ses: fmt.Sprint(5000 + i), PID: 30000 + i, UID: 1500, Kind: "login-only"}
